@@ -22,7 +22,9 @@ General facts of the engine model, local to `_run_recurrent_subgraph` / `_run_no
   needs again (`C11_invalidated_nodes_keep_results`, `C11_starting_dag_hides_its_invalidated_nodes`,
   `C11_starting_dag_leaves_the_rest`; demo `demoReader`);
 * one `_run_recurrent_subgraph` per subgraph: a `Recurrent` result starts the loop only if it is not running already
-  (`C11_no_second_loop_while_active`, `C11_first_recurrent_result_starts_the_loop`).
+  (`C11_no_second_loop_while_active`, `C11_first_recurrent_result_starts_the_loop`);
+* a switch waits for its decision only, in the DAG of an iteration as in every other DAG
+  (`C11_switch_readiness_ignores_cases`, `C11_switch_readiness_is_the_same_in_every_dag`).
 **All programs, all schedules** (`Proofs/RecScope.lean`): in every reachable state a node whose execution was ever
 invalidated belongs to the subgraph `start → dest` of a `RecurrentSubGraph` mark
 (`C11_only_subgraph_nodes_are_invalidated`), so a node outside every recurrent subgraph is executed at most once in a
@@ -473,6 +475,25 @@ example : (∃ s, runChoicesC11 demoReader init (demoReaderRun.take 29) = some s
       cases ho : s.outcome with
       | none => simp [ho] at this
       | some o => cases o <;> simp [ho] at this; exact ⟨_, rfl⟩
+
+
+/-! ### switch readiness in the DAG of an iteration (repo fix 4bfc65e) -/
+
+/-- **a switch is resolved as soon as its decision is known — in every DAG** (repo fix 4bfc65e): what a switch node waits
+for are the sources of its decision edges only, whatever DAG launches it; in particular not a case node that happens to be
+a node of the DAG of a restarted recurrent subgraph, which nothing orders before the switch there -/
+theorem C11_switch_readiness_ignores_cases (P : Program) (s : St) (d : DagRef) (S : Node) (hS : P.g.isSwitch S = true) :
+    predsFor P s d S =
+      ((P.g.edges.filter (fun e => e.v == S && e.isSwitch)).map (·.u)).map
+        (fun p => if P.g.isSwitch p then (match s.sw p with | some (_, c) => c | none => p) else p) := by
+  unfold predsFor
+  simp only [hS, if_true]
+  rfl
+
+theorem C11_switch_readiness_is_the_same_in_every_dag (P : Program) (s : St) (d d' : DagRef) (S : Node)
+    (hS : P.g.isSwitch S = true) : ready P s d S = ready P s d' S := by
+  unfold ready
+  rw [C11_switch_readiness_ignores_cases P s d S hS, C11_switch_readiness_ignores_cases P s d' S hS]
 
 
 end MLPE.Eng
